@@ -1,31 +1,31 @@
-#include "extracted.hpp"
+#include "extracted_tail.hpp"
 using namespace souffle;
 using namespace souffle::detail;
 extern "C" {
+// the node operations' wrappers exist in this unit only so that the extracted node code links; rebalance_or_split is REPLACED by its summary contract
 void h_split(void* t, void* rootp, void* rlock, int idx, void* vec) { ((node*)t)->split((node**)rootp, *(lock_type*)rlock, idx, *(vx_vec*)vec); }
 int h_ros(void* t, void* rootp, void* rlock, int idx, void* vec) { return ((node*)t)->rebalance_or_split((node**)rootp, *(lock_type*)rlock, idx, *(vx_vec*)vec); }
 void h_grow(void* t, void* rootp, void* rlock, void* sib, void* vec) { ((node*)t)->grow_parent((node**)rootp, *(lock_type*)rlock, (node*)sib, *(vx_vec*)vec); }
 void h_ins(void* n, void* rootp, void* rlock, unsigned pos, void* pred, const void* keyp, void* newNode, void* vec) {
     ((node*)n)->insert_inner((node**)rootp, *(lock_type*)rlock, pos, (node*)pred, *(const Key*)keyp, (node*)newNode, *(vx_vec*)vec);
 }
-void h_ins_rec(void* n, void* rootp, void* rlock, unsigned pos, void* pred, const void* keyp, void* newNode, void* vec) {
-    ((node*)n)->insert_inner((node**)rootp, *(lock_type*)rlock, pos, (node*)pred, *(const Key*)keyp, (node*)newNode, *(vx_vec*)vec);
+void h_ins_rec(void* n, void* rootp, void* rlock, unsigned pos, void* pred, const void* keyp, void* newNode, void* vec) { h_ins(n, rootp, rlock, pos, pred, keyp, newNode, vec); }
+// the fragment under contract: tree = {root, root_lock}
+bool h_tail(void* tree, void* cur, long idx, int k) {
+    vx_hints hints; OptimisticReadWriteLock::Lease lease; lease.version = 0; Key key = k;
+    return ((vx_tree*)tree)->insert_tail((node*)cur, lease, idx, key, hints);
 }
 unsigned long h_layout(int w) {
-    inner_node* z = (inner_node*)0;
+    inner_node* z = (inner_node*)0; vx_tree* t = (vx_tree*)0;
     switch (w) {
     case 0: return sizeof(base);
     case 1: return sizeof(node);
     case 2: return sizeof(inner_node);
     case 3: return maxKeys;
-    case 4: return (unsigned long)&z->lock;
-    case 5: return (unsigned long)&z->numElements;
-    case 6: return (unsigned long)&z->position;
-    case 7: return (unsigned long)&z->inner;
-    case 8: return sizeof(OptimisticReadWriteLock);
-    case 9: return (unsigned long)&z->lock.invec - (unsigned long)&z->lock;
-    case 10: return sizeof(vx_vec);
-    default: return (unsigned long)&((vx_vec*)0)->n;
+    case 4: return sizeof(vx_vec);
+    case 5: return (unsigned long)&((vx_vec*)0)->n;
+    case 6: return sizeof(vx_tree);
+    default: return (unsigned long)&t->root_lock;
     }
 }
 }
